@@ -420,24 +420,32 @@ def ring_prefix_paths(ctx, owner, fmt_node, arg0):
 
 
 def atom_token_printer(ctx):
-    """the encoder's atom-token printer, by role: the function of the encoder module that calls the (public) atom printer
-    atom_to_smiles -- whatever it is called"""
+    """the encoder's atom-token printer, by role: the module-level function of the encoder module that the fragment printer
+    calls with the atom it has just fetched with get_atom() -- whatever it is called, and whether or not it still goes through
+    atom_to_smiles (C03/R5 checks that it does)"""
     key = ("atom_token_printer",)
     if key not in ctx.cache:
-        a2s = ctx.fn("selfies.utils.smiles_utils.atom_to_smiles")
-        encf = ctx.api("encoder")
-        reg = set(ctx.cg.region(encf))
-        cands = [g for g in ctx.db.funcs.values() if g.module is encf.module and g.cls is None and g.qual in reg and g is not encf
-                 and any(a2s in s_.callees for s_ in ctx.cg.sites(g))]
-        # the printer formats a bracketed token; a strict-check message that also spells atoms does not
-        tok = [g for g in cands if any(isinstance(n, ast.Constant) and isinstance(n.value, str) and n.value.startswith("[") and "{" in n.value
-                                       for n in own_nodes(g.node))
-               or any(isinstance(n, ast.JoinedStr) and n.values and isinstance(n.values[0], ast.Constant) and str(n.values[0].value).startswith("[")
-                      for n in own_nodes(g.node))]
-        pick = tok if len(tok) == 1 else (cands if len(cands) == 1 else [])
-        if len(pick) != 1:
-            raise AnalysisError("the encoder's atom-token printer (caller of atom_to_smiles) was not identified (%d candidate(s))" % len(cands))
-        ctx.cache[key] = pick[0]
+        _encf, frag = fragment_printer(ctx)
+        atom_vars = set()
+        for n in own_nodes(frag.node):
+            if isinstance(n, ast.Assign) and len(n.targets) == 1 and isinstance(n.targets[0], ast.Name) and isinstance(n.value, ast.Call) \
+                    and isinstance(n.value.func, ast.Attribute) and n.value.func.attr == "get_atom":
+                atom_vars.add(n.targets[0].id)
+        cands = []
+        for s_ in ctx.cg.sites(frag):
+            if not isinstance(s_.node, ast.Call):
+                continue
+            args = list(s_.node.args) + [k.value for k in s_.node.keywords]
+            takes_atom = any(isinstance(a, ast.Name) and a.id in atom_vars for a in args) or \
+                any(isinstance(a, ast.Call) and isinstance(a.func, ast.Attribute) and a.func.attr == "get_atom" for a in args)
+            if takes_atom:
+                for g in s_.callees:
+                    if g.module is frag.module and g.cls is None and getattr(g, "outer", None) is None and g not in cands:
+                        cands.append(g)
+        if len(cands) != 1:
+            raise AnalysisError("the encoder's atom-token printer (called by the fragment printer with the fetched atom) was not identified "
+                                "(%d candidate(s))" % len(cands))
+        ctx.cache[key] = cands[0]
     return ctx.cache[key]
 
 
@@ -480,3 +488,179 @@ def resolve_local(f, expr, depth=3):
             break
         expr = asg[0].value
     return expr
+
+
+# calls that write interpreter- / process-wide state (not module state of the package, so invisible to the points-to
+# effect analysis): the explicit table the frame / ownership rules (C11, C19) consult
+PROCESS_GLOBAL_SETTERS = {
+    "sys.setrecursionlimit", "sys.settrace", "sys.setprofile", "sys.setswitchinterval", "sys.set_int_max_str_digits",
+    "os.chdir", "os.putenv", "os.unsetenv", "os.umask", "locale.setlocale", "random.seed", "signal.signal",
+    "gc.disable", "gc.enable", "gc.set_threshold", "warnings.simplefilter", "warnings.filterwarnings", "warnings.resetwarnings",
+    "threading.setprofile", "threading.settrace", "decimal.setcontext", "faulthandler.enable", "faulthandler.disable",
+    "importlib.reload", "builtins.setattr:sys", "builtins.setattr:os",
+}
+
+
+def check_no_process_global_writes(ctx, rep, region, RULE):
+    """no function of the region calls a setter of interpreter-wide state (recursion limit, trace hooks, environment,
+    warning filters, random seed ...): such state is shared by all calls and all threads, whatever the call restores later"""
+    n = 0
+    for q in sorted(region):
+        f = ctx.db.funcs.get(q)
+        if f is None:
+            continue
+        for nd in own_nodes(f.node):
+            name = None
+            if isinstance(nd, ast.Call):
+                r = ctx.db.resolve_dotted(f.module, nd.func) if isinstance(nd.func, (ast.Name, ast.Attribute)) else None
+                if r and r[0] in ("ext", "module"):
+                    name = r[1] if isinstance(r[1], str) else None
+                if name is None:
+                    name = unparse(nd.func)
+            elif isinstance(nd, (ast.Subscript, ast.Attribute)) and isinstance(nd.ctx, (ast.Store, ast.Del)):
+                base = nd.value
+                if unparse(base) in ("os.environ", "sys.path", "sys.modules", "sys.argv") or (isinstance(base, ast.Name) and base.id in ("sys", "os")
+                                                                                              and isinstance(nd, ast.Attribute)):
+                    r = ctx.db.resolve_dotted(f.module, base if isinstance(base, (ast.Name, ast.Attribute)) else None) if isinstance(base, (ast.Name, ast.Attribute)) else None
+                    name = "store:" + unparse(nd)
+            if name is None:
+                continue
+            hit = name in PROCESS_GLOBAL_SETTERS or name.startswith("store:") or \
+                (isinstance(nd, ast.Call) and isinstance(nd.func, ast.Attribute) and nd.func.attr in ("update", "pop", "clear", "setdefault", "__setitem__")
+                 and unparse(nd.func.value) == "os.environ")
+            if hit:
+                n += 1
+                rep.ob(RULE, False, nd, f, construct=unparse(nd)[:70],
+                       witness="%s changes interpreter-wide state from inside a translation call: concurrent (and later) calls observe it" % name,
+                       nontrivial=True, key="process-global/%s/%s" % (f.name, name.split(":")[0]))
+    if not n:
+        rep.ob(RULE, True, None, None, loc="selfies/", construct="calls of process-global setters in %d functions" % len(region),
+               how="none (explicit table of interpreter-wide setters)", key="process-global/none")
+
+
+def import_obligations(rep, sub, mapping):
+    """copy the obligations of rules `mapping` = {source rule: target rule} from a sub-report (another property's rule run
+    on the same tree) into rep; keys keep the source rule so that a shared finding stays attributable"""
+    n = 0
+    for o in sub.obs:
+        tgt = mapping.get(o.rule)
+        if tgt is None:
+            continue
+        n += 1
+        key = "/".join(o.key.split("/")[1:])          # drop the source property id
+        o2 = rep.ob(tgt, o.ok, None, o.func, construct=o.construct, how=o.how, witness=o.witness, key=key, nontrivial=o.nontrivial, loc=o.loc)
+    return n
+
+
+def check_bond_count_writers(ctx, rep, RULE):
+    """The per-atom bond-order sum (the list get_bond_count() reads) has no writer that could make it differ from the sum of the
+    bond orders: it grows by `.append(0)` with the atom list, changes by `+=` / `-=` deltas in the bond mutators (C01/V6 checks
+    both endpoints), and the only plain store is the rounding of the same entry  F[i] = int(F[i])  (kekulisation)."""
+    cls = ctx.db.classes["selfies.mol_graph.MolecularGraph"]
+    G = cls.methods.get("get_bond_count")
+    if G is None:
+        raise AnalysisError("MolecularGraph.get_bond_count not found")
+    field = None
+    for r in own_nodes(G.node):
+        if isinstance(r, ast.Return) and isinstance(r.value, ast.Subscript) and isinstance(r.value.value, ast.Attribute):
+            field = r.value.value.attr
+    if field is None:
+        raise AnalysisError("bond-count field read by get_bond_count not identified")
+    n = 0
+    for f in ctx.db.funcs.values():
+        for nd in own_nodes(f.node):
+            probs = None
+            if isinstance(nd, ast.Assign):
+                for t in nd.targets:
+                    if isinstance(t, ast.Subscript) and isinstance(t.value, ast.Attribute) and t.value.attr == field:
+                        v = nd.value
+                        same = isinstance(v, ast.Call) and unparse(v.func) in ("int", "round", "math.floor") and len(v.args) == 1 \
+                            and unparse(v.args[0]) == unparse(t).replace(" ", "") or \
+                            (isinstance(v, ast.Call) and unparse(v.func) in ("int", "round", "math.floor") and len(v.args) == 1
+                             and " ".join(unparse(v.args[0]).split()) == " ".join(unparse(t).split()))
+                        probs = [] if same else ["%s is overwritten with %s, not with the rounding of the same entry: the count can differ from "
+                                                "the sum of the atom's bond orders" % (unparse(t), unparse(v)[:50])]
+                    elif isinstance(t, ast.Attribute) and t.attr == field and f.name != "__init__":
+                        probs = ["the bond-count list is rebound in %s" % f.name]
+            elif isinstance(nd, ast.AugAssign) and isinstance(nd.target, ast.Subscript) and isinstance(nd.target.value, ast.Attribute) \
+                    and nd.target.value.attr == field:
+                probs = [] if isinstance(nd.op, (ast.Add, ast.Sub)) else ["bond count changed by %s" % type(nd.op).__name__]
+            elif isinstance(nd, ast.Call) and isinstance(nd.func, ast.Attribute) and isinstance(nd.func.value, ast.Attribute) \
+                    and nd.func.value.attr == field and nd.func.attr not in ("copy", "index", "count", "__len__"):
+                ok = nd.func.attr == "append" and nd.args and isinstance(nd.args[0], ast.Constant) and nd.args[0].value == 0
+                probs = [] if ok else ["%s.%s(...) in %s" % (field, nd.func.attr, f.name)]
+            if probs is None:
+                continue
+            n += 1
+            rep.ob(RULE, not probs, nd, f, construct=unparse(nd)[:70], how="append(0) / += delta / rounding of the same entry",
+                   witness="; ".join(probs) or None, nontrivial=True, key="bond-count-writer/%s/%s" % (f.name, "ok" if not probs else "bad"))
+    if n < 4:
+        rep.floor_failures.append("only %d writers of the bond-count list found (expected >= 4)" % n)
+
+
+def check_ring_slot_pairing(ctx, rep, RULE):
+    """Ring bonds are placed before the chain bonds of an atom, in the order the rings are formed: the position handed to
+    add_ring_bond for each endpoint is a per-atom counter X[i], and that counter advances exactly when a ring bond is really
+    inserted at the atom -- the two `X[i] += 1` sit in the same straight-line block as the add_ring_bond call, after it, and
+    no counter advances anywhere else (a ring request that only raises an existing bond's order inserts nothing)."""
+    dec = ctx.api("decoder")
+    n = 0
+    for q in sorted(ctx.cg.region(dec)):
+        g = ctx.db.funcs[q]
+        calls = [c for c in own_nodes(g.node) if isinstance(c, ast.Call) and isinstance(c.func, ast.Attribute) and c.func.attr == "add_ring_bond"]
+        for c in calls:
+            kw = {k.arg: k.value for k in c.keywords}
+            ap, bp = kw.get("a_pos"), kw.get("b_pos")
+            if not (isinstance(ap, ast.Subscript) and isinstance(bp, ast.Subscript) and isinstance(ap.value, ast.Name)
+                    and isinstance(bp.value, ast.Name) and ap.value.id == bp.value.id):
+                continue
+            X = ap.value.id
+            n += 1
+            # the block (statement list) that holds the call statement
+            blocks = []
+            for nd in [g.node] + list(own_nodes(g.node)):
+                for fld in ("body", "orelse", "finalbody"):
+                    b = getattr(nd, fld, None)
+                    if isinstance(b, list) and b and isinstance(b[0], ast.stmt):
+                        blocks.append(b)
+                for h in getattr(nd, "handlers", []) or []:
+                    blocks.append(h.body)
+            home = [b for b in blocks if any(any(x is c for x in ast.walk(st)) and not isinstance(st, (ast.If, ast.For, ast.While, ast.Try, ast.With))
+                                              for st in b)]
+            probs = []
+
+            def incs(block, after=None):
+                out = []
+                seen_call = after is None
+                for st in block:
+                    if after is not None and any(x is after for x in ast.walk(st)):
+                        seen_call = True
+                        continue
+                    if seen_call and isinstance(st, ast.AugAssign) and isinstance(st.op, ast.Add) and isinstance(st.target, ast.Subscript) \
+                            and isinstance(st.target.value, ast.Name) and st.target.value.id == X \
+                            and isinstance(st.value, ast.Constant) and st.value.value == 1:
+                        out.append(unparse(st.target.slice))
+                return out
+            if len(home) != 1:
+                probs.append("the add_ring_bond call is not a plain statement of one block")
+            else:
+                got = sorted(incs(home[0], c))
+                want = sorted([unparse(ap.slice), unparse(bp.slice)])
+                if got != want:
+                    probs.append("after inserting the ring bond the slot counters advanced are %s, expected %s[%s] and %s[%s] once each"
+                                 % (got or "none", X, want[0], X, want[1]))
+            # no counter advances in a block without an insertion
+            for b in blocks:
+                if home and b is home[0]:
+                    continue
+                stray = [st for st in b if isinstance(st, ast.AugAssign) and isinstance(st.target, ast.Subscript)
+                         and isinstance(st.target.value, ast.Name) and st.target.value.id == X]
+                if stray and not any(isinstance(x, ast.Call) and isinstance(x.func, ast.Attribute) and x.func.attr == "add_ring_bond"
+                                     for st in b for x in ast.walk(st) if not isinstance(st, (ast.If, ast.For, ast.While, ast.Try))):
+                    probs.append("%s advances on a path that inserts no ring bond (%s): later ring bonds of the atom are placed one slot "
+                                 "too far -- behind a chain bond" % (X, unparse(stray[0])))
+            rep.ob(RULE, not probs, c, g, construct="ring slot counter %s around add_ring_bond" % X,
+                   how="X[a] += 1 and X[b] += 1 exactly with the insertion, nowhere else", witness="; ".join(probs) or None,
+                   nontrivial=True, key="ring-slots/%s" % ("ok" if not probs else "unpaired"))
+    if not n:
+        rep.note("ring bonds are not placed through per-atom slot counters: placement order not decided")
